@@ -13,7 +13,7 @@
    out (all histories, unconditional); a packet can only touch the record stored under its OWN identifier
    (C10_modulo_findings): the cross-contamination is exactly "same number in both directions". *)
 From MV Require Import Base.Val Session.Pkt Session.Inflight Session.InflightProofs Session.QosSpecs
-  Session.QosProofs Session.QosWitness.
+  Session.QosProofs Session.QosOrder Session.QosLive Session.QosSound Session.QosWitness.
 Open Scope N_scope.
 
 (* every outbound QoS 1/2 PUBLISH ever written — first transmission, release of a held-back message, resend —
@@ -43,6 +43,12 @@ Theorem C10_modulo_findings : forall c s o orc k r,
   persistent (fst (step c s o orc)) /\ get k (s_infl (fst (step c s o orc))) = Some r.
 Proof. exact step_keeps_record. Qed.
 
+(* the step check of the monitor says what the specification says: identifiers in range and not shared with another
+   outstanding message; own identifiers, acknowledgements and deliveries leave the other records alone *)
+Theorem C10_monitor_sound : forall c v o ob,
+  chk10 c v o ob (view_op c v o ob) = None -> Spec10_step c v o ob.
+Proof. exact chk10_sound. Qed.
+
 Theorem C10_refuted_own_id : exists c h, model_verdict 10 c h = Some (3, Some (tag "KF_C10_own_id_hits_outbound")).
 Proof. exists (wcfg 2 8), [w_connect; w_out 1 1; w_pub 1 1 false 7]. vm_compute. reflexivity. Qed.
 
@@ -69,6 +75,7 @@ Proof. vm_compute. split; reflexivity. Qed.
 Print Assumptions C10_ids_in_range.
 Print Assumptions C10_fresh_id.
 Print Assumptions C10_modulo_findings.
+Print Assumptions C10_monitor_sound.
 Print Assumptions C10_refuted_own_id.
 Print Assumptions C10_refuted_ack.
 Print Assumptions C10_refuted_reuse.
